@@ -262,6 +262,52 @@ fn gen_store_ops_hub<T: HLabel>(rng: &mut Rng, len: usize) -> Vec<Op<T>> {
     ops
 }
 
+/// Wide hub: 34-90 arguments (ids pass 64 and, with re-declarations, 128), one of them attacking and being
+/// attacked by most of the others (out- and in-lists of 16, 32, 64 and more entries, dead ones included), then
+/// single attacks of the hub withdrawn and put back, targets withdrawn and declared again, redundant insertions.
+fn gen_store_ops_wide_hub<T: HLabel>(rng: &mut Rng) -> Vec<Op<T>> {
+    let k = rng.range(34, 90);
+    let universe: Vec<T> = (0..k).map(T::nth).collect();
+    let hub = universe[rng.below(k)].clone();
+    let mut ops: Vec<Op<T>> = universe.iter().cloned().map(Op::AddArg).collect();
+    let mut order: Vec<usize> = (0..k).collect();
+    rng.shuffle(&mut order);
+    let width = rng.range(14, k);
+    for &j in order.iter().take(width) {
+        ops.push(Op::AddAtt(hub.clone(), universe[j].clone()));
+        if rng.pct(30) {
+            ops.push(Op::AddAtt(universe[j].clone(), hub.clone()));
+        }
+    }
+    let steps = rng.range(60, 260);
+    for _ in 0..steps {
+        let x = universe[rng.below(k)].clone();
+        match rng.weighted(&[6, 3, 3, 2, 2, 1]) {
+            0 => {
+                ops.push(Op::DelAtt(hub.clone(), x.clone()));
+                if rng.pct(70) {
+                    ops.push(Op::AddAtt(hub.clone(), x));
+                }
+            }
+            1 => ops.push(Op::AddAtt(hub.clone(), x)),
+            2 => {
+                ops.push(Op::DelArg(x.clone()));
+                if rng.pct(80) {
+                    ops.push(Op::AddArg(x.clone()));
+                    ops.push(Op::AddAtt(hub.clone(), x));
+                }
+            }
+            3 => ops.push(Op::AddAtt(x, hub.clone())),
+            4 => ops.push(Op::DelAtt(x, hub.clone())),
+            _ => {
+                let y = universe[rng.below(k)].clone();
+                ops.push(Op::AddAtt(x, y));
+            }
+        }
+    }
+    ops
+}
+
 /// Attack churn: 300-1500 operations, four in five of them attack insertions and removals over
 /// 12-30 long-lived arguments, so that hundreds of attack slots are created and tombstoned (any
 /// compaction / re-indexing threshold inside the store is crossed, by either kind of removal).
@@ -374,6 +420,9 @@ fn gen_store_history<T: HLabel>(ctx: &mut Ctx, rng: &mut Rng, len: usize, hub: b
     let mut ops = if churn && rng.pct(40) {
         ctx.count("histories/argument-churn-shape");
         gen_store_ops_arg_churn::<T>(rng)
+    } else if hub && rng.pct(25) {
+        ctx.count("histories/wide-hub-shape");
+        gen_store_ops_wide_hub::<T>(rng)
     } else if hub {
         ctx.count("histories/hub-shape");
         gen_store_ops_hub::<T>(rng, len.max(80))
@@ -390,6 +439,27 @@ fn gen_store_history<T: HLabel>(ctx: &mut Ctx, rng: &mut Rng, len: usize, hub: b
         for _ in 0..rng.range(0, 2 * m) {
             prefix.push(Op::AddAtt(T::nth(rng.below(m)), T::nth(rng.below(m))));
         }
+        prefix.append(&mut ops);
+        ops = prefix;
+    }
+    if start == 3 {
+        // declarations and withdrawals on the bare argument set: m arguments, some of them (anywhere in the
+        // order) withdrawn, some declared again
+        let m = rng.range(1, 9);
+        let mut prefix: Vec<Op<T>> = (0..m).map(|k| Op::AddArg(T::nth(k))).collect();
+        for k in 0..m {
+            if rng.pct(35) {
+                prefix.push(Op::DelArg(T::nth(k)));
+                if rng.pct(25) {
+                    prefix.push(Op::AddArg(T::nth(k)));
+                }
+            }
+        }
+        if rng.pct(15) {
+            prefix.push(Op::DelArg(T::nth(m + 3)));
+        }
+        // the first operation on the framework is an attack among the survivors when there is one
+        prefix.push(Op::AddAtt(T::nth(rng.below(m)), T::nth(rng.below(m))));
         prefix.append(&mut ops);
         ops = prefix;
     }
@@ -454,6 +524,49 @@ fn judge_store_inner<T: HLabel>(ops: &[Op<T>], nwl: u8, counts: &mut Vec<String>
             }
             Ok(Err(e)) => return Some(("C12/reader-rejected-a-well-formed-text".to_string(), json!({"error": e}))),
             Err(p) => return Some((format!("C12/panic/reader/{}", p.site()), p.to_json())),
+        }
+    } else if nwl == 3 {
+        // the argument set has a life of its own (declarations and withdrawals, not only of the most recent
+        // arguments) before a framework is built around it
+        let mut set: ArgumentSet<T> = ArgumentSet::new_with_labels(&[]);
+        while start < ops.len() {
+            match &ops[start] {
+                Op::AddArg(l) => {
+                    set.new_argument(l.clone());
+                    if !model.live.contains_key(l) {
+                        let id = match set.get_argument(l) {
+                            Ok(a) => a.id(),
+                            Err(_) => return Some(("C12/new-argument-not-found".to_string(), json!({"step": start, "op": ops[start].to_json(), "on": "ArgumentSet"}))),
+                        };
+                        if model.ids_given.contains(&id) {
+                            return Some(("C12/id-reused".to_string(), json!({"step": start, "op": ops[start].to_json(), "id": id, "on": "ArgumentSet"})));
+                        }
+                        model.live.insert(l.clone(), id);
+                        model.ids_given.insert(id);
+                        model.ever.insert(l.clone());
+                    }
+                }
+                Op::DelArg(l) => {
+                    let r = set.remove_argument(l);
+                    if r.is_ok() != model.live.contains_key(l) {
+                        return Some((
+                            format!("C12/{}/-arg", if r.is_ok() { "invalid-update-accepted" } else { "update-rejected" }),
+                            json!({"step": start, "op": ops[start].to_json(), "on": "ArgumentSet"}),
+                        ));
+                    }
+                    model.live.remove(l);
+                }
+                _ => break,
+            }
+            start += 1;
+        }
+        counts.push("histories/argument-set-with-a-history-of-its-own-wrapped".to_string());
+        if model.live.values().max().map(|m| m + 1 != model.ids_given.len()).unwrap_or(!model.ids_given.is_empty()) {
+            counts.push("histories/argument-set-wrapped-after-its-latest-arguments-were-removed".to_string());
+        }
+        match catch(|| AAFramework::new_with_argument_set(set)) {
+            Ok(af) => af,
+            Err(p) => return Some((format!("C12/panic/new_with_argument_set/{}", p.site()), p.to_json())),
         }
     } else if nwl == 1 {
         let mut init: Vec<T> = Vec::new();
@@ -637,6 +750,46 @@ fn judge_store_inner<T: HLabel>(ops: &[Op<T>], nwl: u8, counts: &mut Vec<String>
                 format!("C12/observables-differ-from-set-model/after-{}", op.kind()),
                 json!({"step": step, "op": opj, "difference": d}),
             ));
+        }
+        // a derived observer of the same store: the grounded extension (least fixed point of the
+        // characteristic function) is a function of the exposed arguments and attacks alone
+        if step % 2 == 0 || matches!(op, Op::DelAtt(..) | Op::DelArg(..)) {
+            let mut inn: BTreeSet<T> = BTreeSet::new();
+            let mut out: BTreeSet<T> = BTreeSet::new();
+            loop {
+                let mut changed = false;
+                for l in model.live.keys() {
+                    if inn.contains(l) || out.contains(l) {
+                        continue;
+                    }
+                    if model.att.iter().filter(|(_, b)| b == l).all(|(a, _)| out.contains(a)) {
+                        inn.insert(l.clone());
+                        for (a, b) in model.att.iter() {
+                            if a == l {
+                                out.insert(b.clone());
+                            }
+                        }
+                        changed = true;
+                    }
+                }
+                if !changed {
+                    break;
+                }
+            }
+            match catch(|| af.grounded_extension().iter().map(|a| a.label().clone()).collect::<Vec<T>>()) {
+                Ok(g) => {
+                    let gs: BTreeSet<T> = g.iter().cloned().collect();
+                    if gs != inn || gs.len() != g.len() {
+                        return Some((
+                            "C12/grounded-extension-differs-from-the-one-of-the-exposed-framework".to_string(),
+                            json!({"step": step, "op": opj, "got": g.iter().map(|l| l.to_json()).collect::<Vec<_>>(),
+                                   "expected": inn.iter().map(|l| l.to_json()).collect::<Vec<_>>()}),
+                        ));
+                    }
+                    counts.push("grounded_extensions_compared".to_string());
+                }
+                Err(p) => return Some((format!("C12/panic/grounded_extension/{}", p.site()), json!({"step": step, "op": opj, "panic": p.to_json()}))),
+            }
         }
         // point lookups
         for (l, id) in model.live.iter() {
@@ -832,6 +985,7 @@ pub fn run_c12(ctx: &mut Ctx) {
         let nwl: u8 = match rng.below(100) {
             0..=24 => 1,
             25..=39 => 2,
+            40..=49 => 3,
             _ => 0,
         };
         let kind = rng.below(8);
@@ -1218,7 +1372,14 @@ pub fn gen_iccma_text(rng: &mut Rng) -> (Vec<u8>, usize, Vec<(usize, usize)>) {
     (bytes, n, atts)
 }
 
+/// Identifiers that contain or are the words of the Aspartix syntax itself.
+pub const KEYWORD_IDENTS: [&str; 16] =
+    ["att", "arg", "latte", "attacker", "target", "argument", "Matt", "att_1", "arg0", "x_att", "attarg", "argatt", "battery_low", "ARG", "Att", "a_arg_b"];
+
 fn gen_ident(rng: &mut Rng) -> String {
+    if rng.pct(4) {
+        return KEYWORD_IDENTS[rng.below(KEYWORD_IDENTS.len())].to_string();
+    }
     let first = b"abcxyzABZ_";
     let rest = b"abcxyzABZ_0129";
     let len = rng.weighted(&[4, 4, 2, 1]);
@@ -2066,9 +2227,21 @@ fn eval_c14_framework(ctx: &mut Ctx, rng: &mut Rng) {
     } else {
         None
     };
+    // one framework in ten is named with the words of the syntax itself (att, arg, latte, attacker, ...)
+    let kw = rng.pct(10);
+    if kw {
+        ctx.count("frameworks_with_labels_that_contain_syntax_words");
+    }
     let name = |k: usize| -> String {
         match &long {
             Some((lk, l)) if *lk == k => l.clone(),
+            _ if kw => {
+                if k < KEYWORD_IDENTS.len() {
+                    KEYWORD_IDENTS[k].to_string()
+                } else {
+                    format!("{}{}", KEYWORD_IDENTS[k % KEYWORD_IDENTS.len()], k)
+                }
+            }
             _ => ident_label(k),
         }
     };
